@@ -107,3 +107,30 @@ Definition payload (pd : N * list pydp) : bytes :=
 (* ... protocol 0 included, given the repr() texts of the floats *)
 Definition payload_r (frepr : N -> bytes) (pd : N * list pydp) : bytes :=
   if fst pd =? 0 then py_dumps0 frepr (snd pd) else payload pd.
+
+(* ---- protocols 2 and 3 with integers beyond int32: CPython writes LONG1, a length byte k = (bit_length >> 3) + 1 and the k
+   little-endian bytes of the two's complement (non-negative integers here: the top byte stays below 128).  A length byte
+   above 127 is the recorded og-rek finding C13:known:huge_long and is excluded by num_okL. ---- *)
+Definition long_len (n : N) : N := (N.log2 n + 1) / 8 + 1.
+Definition enc_numL (x : pynum) : bytes :=
+  match x with
+  | PyInt n => if n <? 2147483648 then enc_num x else 138 :: long_len n :: le_bytes (N.to_nat (long_len n)) n
+  | PyFloat _ => enc_num x
+  end.
+Definition enc_itemL (d : pydp) (i : N) : bytes :=
+  enc_str (d_name d) i ++ enc_numL (d_ts d) ++ enc_numL (d_val d) ++ [134] ++ put (i + 1) ++ [134] ++ put (i + 2).
+Fixpoint enc_itemsL (ds : list pydp) (i : N) : bytes :=
+  match ds with [] => [] | d :: r => enc_itemL d i ++ enc_itemsL r (i + 3) end.
+Definition py_dumpsL (proto : N) (ds : list pydp) : bytes :=
+  [128; proto; 93] ++ put 0 ++
+  match ds with
+  | [] => []
+  | [d] => enc_itemL d 1 ++ [97]
+  | _ => [40] ++ enc_itemsL ds 1 ++ [101]
+  end ++ [46].
+Definition num_okL (x : pynum) : bool :=
+  match x with PyInt n => (n <? 2147483648) || (long_len n <? 128) | PyFloat b => b <? 18446744073709551616 end.
+Definition dp_okL (d : pydp) : bool :=
+  (N.of_nat (length (d_name d)) <? 2147483648) && num_okL (d_ts d) && num_okL (d_val d).
+Definition payload_rL (frepr : N -> bytes) (pd : N * list pydp) : bytes :=
+  if (fst pd =? 2) || (fst pd =? 3) then py_dumpsL (fst pd) (snd pd) else payload_r frepr pd.
